@@ -303,7 +303,7 @@ int main(int argc, char** argv) {
         }
         else { std::fprintf(out, "R badop\n"); continue; }
         std::fprintf(out, "R %s\n", res.c_str());
-        if (cur && mut && op != "save") dump(*cur);
+        if (cur && mut) dump(*cur);
         std::fflush(out);
     }
     cur.reset(); // destruction is part of the history
